@@ -4,6 +4,7 @@ import (
 	"context"
 
 	golangGrpc "google.golang.org/grpc"
+	"google.golang.org/grpc/codes"
 	"google.golang.org/grpc/status"
 )
 
@@ -18,7 +19,7 @@ func UnaryServerInterceptor(opts ...InterceptorOption) golangGrpc.UnaryServerInt
 		token, ok := cfg.limiter.Acquire(ctx)
 		if !ok {
 			errResp, errCode, err := cfg.limitExceededResponseClassifier(ctx, info.FullMethod, req, cfg.limiter)
-			return errResp, status.Error(errCode, err.Error())
+			return errResp, limitExceededStatus(errCode, err)
 		}
 		resp, err := handler(ctx, req)
 		respType := cfg.serverResponseClassifer(ctx, req, info, resp, err)
@@ -45,7 +46,7 @@ func UnaryClientInterceptor(opts ...InterceptorOption) golangGrpc.UnaryClientInt
 		token, ok := cfg.limiter.Acquire(ctx)
 		if !ok {
 			_, errCode, err := cfg.limitExceededResponseClassifier(ctx, method, req, cfg.limiter)
-			return status.Error(errCode, err.Error())
+			return limitExceededStatus(errCode, err)
 		}
 		err := invoker(ctx, method, req, reply, cc, opts...)
 		respType := cfg.clientResponseClassifer(ctx, method, req, reply, err)
@@ -59,4 +60,13 @@ func UnaryClientInterceptor(opts ...InterceptorOption) golangGrpc.UnaryClientInt
 		}
 		return err
 	}
+}
+
+// limitExceededStatus builds the error returned for a refused call from what the limit-exceeded classifier chose.
+// The classifier's error only supplies the message; a classifier that chooses just a code may return nil.
+func limitExceededStatus(code codes.Code, err error) error {
+	if err == nil {
+		return status.Error(code, "limit exceeded")
+	}
+	return status.Error(code, err.Error())
 }
